@@ -87,6 +87,7 @@ func goOutcomes(c *ev.Ctx, m *genModule, pkg string, runs int) (map[string]bool,
 func C03(c *ev.Ctx) {
 	c.Level = "model_checking"
 	c.Assume("programs are race-free by construction (templates); the Go side is sampled (many runs, GOMAXPROCS 1/2/4/16), the universally quantified side is the model's, which TLC exhausts at the granularity of visible primitives (access grain)",
+		"condition variables are explored twice: with Perennial's definitions (Wait may return spuriously, Signal/Broadcast are no-ops) and with Go's operational meaning (prelude_gocond.v: ticket list, Signal wakes the oldest waiter, Broadcast all), which refines it",
 		"termination clause: <>Finished under weak fairness of every thread and strong fairness of a compare-and-exchange that can succeed (fair spin locks)",
 		"a Go run that does not return within 10 s is the outcome 'hang'",
 		"same trusted base as C01 for the sequential parts")
@@ -124,6 +125,12 @@ func C03(c *ev.Ctx) {
 		c.Inconclusive("prelude: %v", err)
 		return
 	}
+	gb, _ := os.ReadFile(filepath.Join(c.Verif, "spec", "gooselang", "prelude_gocond.v"))
+	pfGo, err := vparse.ParseFile(string(gb))
+	if err != nil {
+		c.Inconclusive("prelude_gocond: %v", err)
+		return
+	}
 	runs := c.Pick(24, 200)
 	checked := 0
 	var totalStates int64
@@ -133,7 +140,7 @@ func C03(c *ev.Ctx) {
 		text := gout.files[pkg]
 		if len(errs[pkg]) > 0 || !strings.Contains(text, "Definition entry:") {
 			outcomesEv[p.Key] = "rejected by goose"
-			if !strings.HasPrefix(p.Key, "go-with-args") {
+			if !p.Boundary {
 				c.Violation("c03.rejected."+p.Key, fmt.Sprintf("goose rejects the concurrent subset program %s:\n%s", p.Key, extractErrors(gout.stderr, pkg)), map[string]string{"gen.go": p.Source})
 			}
 			continue
@@ -148,63 +155,78 @@ func C03(c *ev.Ctx) {
 			c.Violation("c03.unparsable."+p.Key, fmt.Sprintf("emitted text of %s is not well formed: %v", p.Key, perrs[0].Err), map[string]string{"gen.go": p.Source, "emitted.v": text})
 			continue
 		}
-		l := v2tla.New()
-		l.AddFile(pf)
-		l.AddFile(prog)
-		var rty any
-		_ = json.Unmarshal(rtyRaw, &rty)
-		if rty == nil {
-			rty = map[string]any{"t": "u64"}
+		variants := []string{"perennial"}
+		if strings.Contains(p.Source, "sync.NewCond") && !strings.Contains(p.Source, "WaitTimeout") {
+			variants = append(variants, "gocond")
 		}
-		l.AddTest(p.Key, gl.CallNoArgs("entry"), rty)
-		dir, ok := glSpecDir(c, "spec-gl-c03-"+pkg)
-		if !ok {
-			return
-		}
-		outs, r, err := gl.Run(dir, l, gl.RunOpts{Mode: "conc", Fuel: 400, Workers: 14, Timeout: time.Duration(c.Pick(6, 30)) * time.Minute, HeapMB: 16000, Live: p.Deterministic})
-		c.AddTLC(r)
-		totalStates += r.Distinct
-		if dbg := os.Getenv("VERIF_DEBUG_DIR"); dbg != "" {
-			_ = os.WriteFile(filepath.Join(dbg, "c03-"+p.Key+".tlc.txt"), []byte(r.Out), 0644)
-			_ = os.WriteFile(filepath.Join(dbg, "c03-"+p.Key+".v"), []byte(text), 0644)
-		}
-		_ = os.RemoveAll(dir)
-		liveViolated := strings.Contains(r.Out, "Temporal properties were violated") || strings.Contains(r.Out, "Temporal property Terminates was violated")
-		if err != nil || r.TimedOut || (r.TLCError && !liveViolated) {
-			c.Inconclusive("TLC did not complete on %s (%d states): %s", p.Key, r.Distinct, tlc.Tail(r.Out, 12))
-			outcomesEv[p.Key] = "inconclusive"
-			continue
-		}
-		T := map[string]bool{}
-		stuckWhy := ""
-		for _, o := range outs {
-			if o.St == "stuck" {
-				T["stuck"] = true
-				stuckWhy = o.Why
+		for _, variant := range variants {
+			l := v2tla.New()
+			l.AddFile(pf)
+			if variant == "gocond" {
+				l.AddFile(pfGo)
+			}
+			l.AddFile(prog)
+			var rty any
+			_ = json.Unmarshal(rtyRaw, &rty)
+			if rty == nil {
+				rty = map[string]any{"t": "u64"}
+			}
+			l.AddTest(p.Key, gl.CallNoArgs("entry"), rty)
+			dir, ok := glSpecDir(c, "spec-gl-c03-"+pkg+"-"+variant)
+			if !ok {
+				return
+			}
+			outs, r, err := gl.Run(dir, l, gl.RunOpts{Mode: "conc", Fuel: 400, Workers: 14, Timeout: time.Duration(c.Pick(6, 30)) * time.Minute, HeapMB: 16000, Live: p.Deterministic})
+			c.AddTLC(r)
+			totalStates += r.Distinct
+			if dbg := os.Getenv("VERIF_DEBUG_DIR"); dbg != "" {
+				_ = os.WriteFile(filepath.Join(dbg, "c03-"+p.Key+".tlc.txt"), []byte(r.Out), 0644)
+				_ = os.WriteFile(filepath.Join(dbg, "c03-"+p.Key+".v"), []byte(text), 0644)
+			}
+			_ = os.RemoveAll(dir)
+			liveViolated := strings.Contains(r.Out, "Temporal properties were violated") || strings.Contains(r.Out, "Temporal property Terminates was violated")
+			if err != nil || r.TimedOut || (r.TLCError && !liveViolated) {
+				c.Inconclusive("TLC did not complete on %s (%d states): %s", p.Key, r.Distinct, tlc.Tail(r.Out, 12))
+				outcomesEv[p.Key] = "inconclusive"
 				continue
 			}
-			b, _ := json.Marshal(normTLA(o.Res))
-			T[string(b)] = true
-		}
-		checked++
-		gs, ts := keysList(G), keysList(T)
-		outcomesEv[p.Key] = map[string]any{"go": gs, "model": ts, "states": r.Distinct, "deterministic": p.Deterministic, "terminates_under_fairness": !liveViolated}
-		files := map[string]string{"gen.go": p.Source, "emitted.v": text, "tlc-tail.txt": tlc.Tail(r.Out, 60)}
-		bad := ""
-		switch {
-		case T["stuck"]:
-			bad = fmt.Sprintf("some interleaving of the emitted program gets stuck (%s): a race-free Go program must not be undefined behaviour in GooseLang", stuckWhy)
-		case !subset(G, T):
-			bad = fmt.Sprintf("Go produced an outcome that no interleaving of the emitted program produces: Go %v, model %v", gs, ts)
-		case p.Deterministic && len(T) != 1:
-			bad = fmt.Sprintf("the Go result does not depend on the schedule (%v) but the emitted program has several outcomes %v", gs, ts)
-		case p.Deterministic && !reflect.DeepEqual(gs, ts):
-			bad = fmt.Sprintf("outcome sets differ: Go %v, model %v", gs, ts)
-		case p.Deterministic && liveViolated:
-			bad = "some fair interleaving of the emitted program never finishes (a thread spins forever): TLC reports a lasso violating <>Finished"
-		}
-		if bad != "" {
-			c.Report("c03."+p.Key, fmt.Sprintf("concurrent program %s: %s", p.Key, bad), files)
+			T := map[string]bool{}
+			stuckWhy := ""
+			for _, o := range outs {
+				if o.St == "stuck" {
+					T["stuck"] = true
+					stuckWhy = o.Why
+					continue
+				}
+				b, _ := json.Marshal(normTLA(o.Res))
+				T[string(b)] = true
+			}
+			if why := strings.TrimPrefix(stuckWhy, "unknown identifier ?unsupported: "); T["stuck"] && strings.HasPrefix(stuckWhy, "unknown identifier") && (strings.Contains(why, ".") || !isProgramName(strings.TrimSpace(strings.TrimPrefix(stuckWhy, "unknown identifier")))) {
+				// refers to a library the model does not define (qualified name): not judged
+				outcomesEv[p.Key+"/"+variant] = "not judged: " + stuckWhy
+				continue
+			}
+			checked++
+			gs, ts := keysList(G), keysList(T)
+			outcomesEv[p.Key+"/"+variant] = map[string]any{"go": gs, "model": ts, "states": r.Distinct, "deterministic": p.Deterministic, "terminates_under_fairness": !liveViolated}
+			files := map[string]string{"gen.go": p.Source, "emitted.v": text, "tlc-tail.txt": tlc.Tail(r.Out, 60)}
+			bad := ""
+			switch {
+			case T["stuck"]:
+				bad = fmt.Sprintf("some interleaving of the emitted program gets stuck (%s): a race-free Go program must not be undefined behaviour in GooseLang", stuckWhy)
+			case !subset(G, T):
+				bad = fmt.Sprintf("Go produced an outcome that no interleaving of the emitted program produces: Go %v, model %v", gs, ts)
+			case p.Deterministic && len(T) != 1:
+				bad = fmt.Sprintf("the Go result does not depend on the schedule (%v) but the emitted program has several outcomes %v", gs, ts)
+			case p.Deterministic && !reflect.DeepEqual(gs, ts):
+				bad = fmt.Sprintf("outcome sets differ: Go %v, model %v", gs, ts)
+			case p.Deterministic && liveViolated:
+				bad = "some fair interleaving of the emitted program never finishes (a thread spins forever): TLC reports a lasso violating <>Finished"
+			}
+			if bad != "" {
+				c.Report("c03."+p.Key, fmt.Sprintf("concurrent program %s (condition variables: %s semantics): %s", p.Key, variant, bad), files)
+				break
+			}
 		}
 	}
 	sort.Strings(nil)
